@@ -167,19 +167,27 @@ def install(plan, scratch):
     tp.shutil = ShutilProxy()
 
     def audit(event, args):
+        # file-system events that did not come through a shim (code paths the shims do not know, other threads):
+        # they are crash points too - coarser (no per-write granularity) but nothing escapes the enumeration
         if plan.in_shim:
             return
+        hit = None
         try:
             if event == 'open':
                 path, mode, flags = args
                 if isinstance(path, str) and isinstance(flags, int) and flags & (os.O_WRONLY | os.O_RDWR) \
-                        and os.path.abspath(path).startswith(scratch):
-                    plan.unshimmed.append(('open', path))
+                        and os.path.abspath(path).startswith(scratch) and '/child_tmp/' not in path \
+                        and not path.endswith('rep.json'):
+                    hit = ('audit:open', path)
             elif event in ('os.rename', 'os.remove', 'os.mkdir', 'os.rmdir', 'os.chmod', 'shutil.copyfile'):
-                if any(isinstance(a, str) and os.path.abspath(a).startswith(scratch) for a in args):
-                    plan.unshimmed.append((event, str(args[0])))
+                if any(isinstance(a, str) and os.path.abspath(a).startswith(scratch) and '/child_tmp/' not in a
+                       for a in args):
+                    hit = ('audit:' + event, str(args[0]))
         except Exception:
-            pass
+            hit = None
+        if hit is not None:
+            plan.unshimmed.append(hit)
+            plan.ev(hit[0], hit[1])
     sys.addaudithook(audit)
 
 
